@@ -628,20 +628,26 @@ class WOFFFlavorData:
             if reader.metaLength:
                 reader.file.seek(reader.metaOffset)
                 rawData = reader.file.read(reader.metaLength)
-                assert len(rawData) == reader.metaLength
+                if len(rawData) != reader.metaLength:
+                    raise TTLibError("not enough data for the metadata block")
                 data = self._decompress(rawData)
-                assert len(data) == reader.metaOrigLength
+                if len(data) != reader.metaOrigLength:
+                    raise TTLibError("unexpected size for decompressed metadata")
                 self.metaData = data
             if reader.privLength:
                 reader.file.seek(reader.privOffset)
                 data = reader.file.read(reader.privLength)
-                assert len(data) == reader.privLength
+                if len(data) != reader.privLength:
+                    raise TTLibError("not enough data for the private data block")
                 self.privData = data
 
     def _decompress(self, rawData):
         import zlib
 
-        return zlib.decompress(rawData)
+        try:
+            return zlib.decompress(rawData)
+        except zlib.error as e:
+            raise TTLibError("can't decompress the metadata block: %s" % e)
 
 
 def calcChecksum(data):
